@@ -117,6 +117,7 @@ func caseVariants(s string) []string {
 func c34(c *report.Check) {
 	labels := []string{"a", "A", "b1", "x-y", "example", "EXAMPLE", "com", "COM", "io", "7"}
 	maxLabels := 4
+	quickLabels, quickMaxLabels := len(labels), maxLabels
 	rootLists := [][]string{
 		{},
 		{"example.com"},
@@ -184,31 +185,51 @@ func c34(c *report.Check) {
 			}
 			c.Violation(c34Sig(cs), detail, cs)
 		}
-		// all hosts of 1..maxLabels labels
-		idx := make([]int, maxLabels)
-		for n := 1; n <= maxLabels; n++ {
-			for i := range idx[:n] {
-				idx[i] = 0
-			}
-			for {
-				parts := make([]string, n)
-				for i := 0; i < n; i++ {
-					parts[i] = labels[idx[i]]
+		// all hosts of 1..maxLabels labels. The thorough space is enumerated as the quick
+		// space first and then the remainder, so that the first failing host of a kind (the
+		// one that is reported) is the same in both tiers.
+		enumerate := func(nLabels, maxN int, skip func(idx []int, n int) bool) {
+			idx := make([]int, maxN)
+			for n := 1; n <= maxN; n++ {
+				for i := range idx[:n] {
+					idx[i] = 0
 				}
-				eval(strings.Join(parts, "."), "labels")
-				k := n - 1
-				for k >= 0 {
-					idx[k]++
-					if idx[k] < len(labels) {
+				for {
+					if skip == nil || !skip(idx, n) {
+						parts := make([]string, n)
+						for i := 0; i < n; i++ {
+							parts[i] = labels[idx[i]]
+						}
+						eval(strings.Join(parts, "."), "labels")
+					}
+					k := n - 1
+					for k >= 0 {
+						idx[k]++
+						if idx[k] < nLabels {
+							break
+						}
+						idx[k] = 0
+						k--
+					}
+					if k < 0 {
 						break
 					}
-					idx[k] = 0
-					k--
-				}
-				if k < 0 {
-					break
 				}
 			}
+		}
+		enumerate(quickLabels, quickMaxLabels, nil)
+		if len(labels) > quickLabels || maxLabels > quickMaxLabels {
+			enumerate(len(labels), maxLabels, func(idx []int, n int) bool {
+				if n > quickMaxLabels {
+					return false
+				}
+				for _, i := range idx[:n] {
+					if i >= quickLabels {
+						return false
+					}
+				}
+				return true // already evaluated in the quick pass
+			})
 		}
 		for _, vh := range variantHosts {
 			for _, h := range caseVariants(vh) {
